@@ -707,6 +707,7 @@ func (x *Exec) evAddr(st *State, operand ast.Expr, ptrT types.Type) Val {
 	x.storeRef(st, r, lv.typ, cur)
 	x.vc.note("interior pointer taken: modelled as a copy (reads only; written back after a direct call)")
 	x.prog.interior[r.T] = lv
+	x.interiors = append(x.interiors, interiorPtr{ref: r, lv: lv, pc: st.pc})
 	return r
 }
 
